@@ -506,3 +506,89 @@ Proof.
   unfold resp_try_read. change (h0 :: H0 ++ S') with ((h0 :: H0) ++ S'). rewrite Hp.
   destruct (resp_head_parse cfg (h0 :: H0)) as [[hd k]| |e| |]; try reflexivity. congruence.
 Qed.
+
+(* ---------- the guard is exact: outside it a complete head whose first line parses is answered NeedMore ---------- *)
+Lemma ends_with_intro q p : ends_with p (q ++ p) = true.
+Proof.
+  unfold ends_with. rewrite app_length. apply andb_true_iff. split; [apply Nat.leb_le; lia|].
+  replace (length q + length p - length p) with (length q) by lia. rewrite skipn_at. apply beq_refl.
+Qed.
+
+Lemma scan_init_needmore rest bE :
+  head_len_aux true CurEmpty rest 0 = Some (length rest) -> guard_block rest = false ->
+  bE = length rest \/ bE = 0 -> scan_init rest bE = Ok INeedMore.
+Proof.
+  intros HC G HbE. unfold guard_block in G. apply orb_false_iff in G as [G1 G2].
+  unfold scan_init.
+  destruct (has_prefix strCRLF rest) eqn:Ep.
+  { exfalso. pose proof (crlf_prefix_head_len _ Ep) as H2. rewrite HC in H2. injection H2 as H2.
+    apply has_prefix_split in Ep as [s ->]. destruct s; [cbn in G1; discriminate|cbn in H2; lia]. }
+  assert (Hnone : index_sub strCRLFCRLF rest = None).
+  { destruct (index_sub strCRLFCRLF rest) as [i|] eqn:Ei; [|reflexivity]. exfalso.
+    destruct (index_sub_split _ _ _ Ei) as (pre & suf & E & Hpre).
+    change strCRLFCRLF with [CR; LF; CR; LF] in E.
+    destruct (crlfcrlf_blank pre suf CurEmpty 0) as (N & HN & HNle).
+    rewrite <- E, HC in HN. injection HN as <-.
+    rewrite E, !app_length in HNle. cbn [length] in HNle.
+    destruct suf; [|cbn [length] in HNle; lia].
+    rewrite app_nil_r in E. rewrite E, ends_with_intro in G2. discriminate. }
+  assert (Htr : (do trusted <- (if (4 <=? bE) && (bE <=? length rest)
+                                then do t <- slice rest (bE - 4) bE; Ok (beq t strCRLFCRLF) else Ok false);
+                 Ok trusted) = Ok false).
+  { destruct ((4 <=? bE) && (bE <=? length rest)) eqn:Et; [|reflexivity].
+    apply andb_true_iff in Et as [E4 El]. apply Nat.leb_le in E4, El.
+    destruct HbE as [->| ->]; [|lia].
+    rewrite slice_ok by lia. cbn [bind]. f_equal.
+    replace (length rest - (length rest - 4)) with 4 by lia.
+    unfold ends_with in G2. change (length [CR; LF; CR; LF]) with 4 in G2.
+    replace (4 <=? length rest) with true in G2 by (symmetry; apply Nat.leb_le; lia). cbn [andb] in G2.
+    rewrite firstn_all2 by (rewrite skipn_length; lia). exact G2. }
+  destruct (if (4 <=? bE) && (bE <=? length rest) then do t <- slice rest (bE - 4) bE; Ok (beq t strCRLFCRLF) else Ok false)
+    as [tr| |]; cbn [bind] in Htr |- *; try discriminate.
+  injection Htr as ->. rewrite Hnone. reflexivity.
+Qed.
+
+Theorem req_guard_exact cfg H :
+  HeadComplete H -> crlf_terminated H = false ->
+  req_head_parse cfg H = HNeedMore \/ exists e, forall S, req_head_parse cfg (H ++ S) = HErr e.
+Proof.
+  intros HC G.
+  destruct (complete_head H HC) as (line & rest & pre & E & Hne & Hf & Hr & Hfl).
+  rewrite (crlf_terminated_block H pre rest E Hf) in G.
+  destruct (req_line_parse_total line (length pre)) as [fl Efl].
+  assert (Hfirst : forall z, req_parseFirstLine (H ++ z) = Ok fl).
+  { intros z. unfold req_parseFirstLine. rewrite Hfl. cbn [bind].
+    replace (length (H ++ z) - length (rest ++ z)) with (length pre) by (subst H; rewrite !app_length; lia).
+    exact Efl. }
+  destruct fl as [|e|l].
+  - exfalso. exact (req_line_parse_answers _ _ Efl).
+  - right. exists e. intros S. unfold req_head_parse, req_parse_R. rewrite Hfirst. reflexivity.
+  - left. unfold req_head_parse, req_parse_R. rewrite <- (app_nil_r H) at 1. rewrite Hfirst. cbn [bind].
+    rewrite (req_line_parse_len _ _ _ Efl).
+    rewrite slice_from by (subst H; rewrite app_length; lia).
+    assert (Esk : skipn (length pre) H = rest) by (rewrite E; apply skipn_at). rewrite Esk. cbn [bind].
+    rewrite readRawHeaders_spec, Hr. cbn [bind].
+    unfold req_parseHeaders. rewrite scan_init_needmore by auto. reflexivity.
+Qed.
+
+Theorem resp_guard_exact cfg H :
+  HeadComplete H -> crlf_terminated H = false ->
+  resp_head_parse cfg H = HNeedMore \/ exists e, forall S, resp_head_parse cfg (H ++ S) = HErr e.
+Proof.
+  intros HC G.
+  destruct (complete_head H HC) as (line & rest & pre & E & Hne & Hf & Hr & Hfl).
+  rewrite (crlf_terminated_block H pre rest E Hf) in G.
+  destruct (resp_line_parse_total line (length pre)) as [fl Efl].
+  assert (Hfirst : forall z, resp_parseFirstLine (H ++ z) = Ok fl).
+  { intros z. unfold resp_parseFirstLine. rewrite Hfl. cbn [bind].
+    replace (length (H ++ z) - length (rest ++ z)) with (length pre) by (subst H; rewrite !app_length; lia).
+    exact Efl. }
+  destruct fl as [|e|l].
+  - exfalso. exact (resp_line_parse_answers _ _ Efl).
+  - right. exists e. intros S. unfold resp_head_parse, resp_parse_R. rewrite Hfirst. reflexivity.
+  - left. unfold resp_head_parse, resp_parse_R. rewrite <- (app_nil_r H) at 1. rewrite Hfirst. cbn [bind].
+    rewrite (resp_line_parse_len _ _ _ Efl).
+    rewrite slice_from by (subst H; rewrite app_length; lia).
+    assert (Esk : skipn (length pre) H = rest) by (rewrite E; apply skipn_at). rewrite Esk. cbn [bind].
+    unfold resp_parseHeaders. rewrite scan_init_needmore by auto. reflexivity.
+Qed.
